@@ -911,7 +911,7 @@ func ruleDataMustCredit(p *Prog, r *Out) {
 	}
 	vs := p.runOPA(opaSpec{fn: f, fr: frp, kinds: kinds,
 		discharge: func(in ssa.Instruction) bool {
-			return p.isCallTo(in, "(*Conn).readStream") || isAcc(cliAcc)(in)
+			return p.isCallTo(in, "(*Conn).readStream") || p.forwardsTo(in, "(*Conn).readStream") || isAcc(cliAcc)(in)
 		},
 		returnOK: func(*ssa.Return) bool { return false },
 	})
@@ -1145,4 +1145,38 @@ func ruleIncrementPositive(p *Prog, r *Out) {
 			r.check(okk, key, p.ipos(cs.Instr), "increment positive: "+why, fmt.Sprintf("%s emits a WINDOW_UPDATE whose increment `%s` is not shown positive by a dominating guard: an increment of 0 is a PROTOCOL_ERROR at the peer (RFC 7540 s6.9)", fn, d))
 		}
 	}
+}
+
+// forwardsTo: in is a static call of a package function whose entry block
+// dominates a call of target with the caller's frame passed on, i.e. a
+// forwarding helper (defer/cleanup wrapped around the real call).
+func (p *Prog) forwardsTo(in ssa.Instruction, target string) bool {
+	ci, ok := in.(ssa.CallInstruction)
+	if !ok {
+		return false
+	}
+	g := ci.Common().StaticCallee()
+	if g == nil || g.Blocks == nil || g.Pkg != p.SPkg {
+		return false
+	}
+	for _, c2 := range p.findCall(g, target) {
+		// unconditional: the call's block post-dominance is approximated by "every return is reachable only through it"
+		all := true
+		for _, b := range g.Blocks {
+			if b == g.Recover {
+				continue // go/ssa's synthetic block for a recovered panic
+			}
+			for _, x := range b.Instrs {
+				if ret, isRet := x.(*ssa.Return); isRet {
+					if !instrDominates(c2.(ssa.Instruction), ret) {
+						all = false
+					}
+				}
+			}
+		}
+		if all {
+			return true
+		}
+	}
+	return false
 }
